@@ -79,6 +79,7 @@ func (e *Engine) noteBound(name string, v int64) {
 }
 
 func (e *Engine) noteChoice(label string, c int, ex *Exec) {
+	ex.choiceVals[label] = uint64(c)
 	e.mu.Lock()
 	if e.choices[label] == nil {
 		e.choices[label] = map[int]int{}
@@ -336,7 +337,7 @@ type checkResult struct {
 }
 
 func (e *Engine) newExec(tf *TF, solver *Solver, h *ssa.Function, prefix []int) *Exec {
-	return &Exec{tf: tf, eng: e, prog: e.prog, solver: solver, harness: h.Name(), harnessPkg: h.Pkg,
+	return &Exec{tf: tf, eng: e, prog: e.prog, solver: solver, harness: h.Name(), harnessPkg: h.Pkg, harnessFn: h, choiceVals: map[string]uint64{},
 		facts: map[int]bool{}, prefix: prefix, globals: map[*ssa.Global]Node{}, readMemo: map[[2]int]*Term{},
 		labelSeq: map[string]int{}, reached: map[string]bool{}, inits: map[*ssa.Package]bool{},
 		unwind: e.unwind, intrUsed: map[string]bool{}, funcsRun: map[*ssa.Function]bool{}, sentinels: map[string]Value{},
